@@ -30,8 +30,8 @@ HEADER = [
 # lines of the header that define a variable (1-based line -> var), used for ground truth inside helpers
 HEADER_DEFS = {18: "r"}
 
-STR_CONSTS = ["a", "bc", "", "x y", "k9"]
-HOSTILE = ['x" * 3 + "', '" + str(1) + "', "\\\\", "'\"'", "__import__('os')", "9" * 60, "%s%d{}", "a\\nb", '"', "' + 'z"]
+STR_CONSTS = ["a", "bc", "", "x y", "k9", "a  b", "   "]
+HOSTILE = ['x" * 3 + "', '" + str(1) + "', "\\\\", "'\"'", "__import__('os')", "9" * 60, "%s%d{}", "a\\nb", '"', "' + 'z", "two  blanks   three", "    "]
 
 
 class G:
@@ -54,6 +54,7 @@ class G:
         self.labels = set()
         self.multi = set()        # variables that may hold more than one value (assigned under a branch, or derived)
         self.written = set()
+        self.list_len = {}
         self.helpers = []         # generated callees: (name, returns an object?, body lines); placed after m0
 
     def fresh(self, p):
@@ -91,6 +92,8 @@ def gen_stmt(g, env, indent, depth):
     objs1 = [v for v, k in env.items() if k == "obj1"]
     lists = [v for v, k in env.items() if k == "list"]
     r = g.draw(st.integers(0, 31))
+    if r >= 24 and not (objs0 and g.callee_field_write and (g.callee_revisit or "loop" not in g.labels)):
+        r = g.draw(st.integers(0, 23))      # no generated callee possible here: another statement kind instead
     w_ints = [v for v in ints if v not in g.frozen]
     w_strs = [v for v in strs if v not in g.frozen]
     if r <= 2 or not ints:
@@ -218,13 +221,21 @@ def gen_stmt(g, env, indent, depth):
     if r == 20 and g.lists:
         v = g.fresh("l")
         g.labels.add("list")
-        g.emit(indent, "%s = [%s, %s]" % (v, g.pick(ints), g.pick(ints)), v)
+        k = g.draw(st.integers(2, 6))
+        g.emit(indent, "%s = [%s]" % (v, ", ".join(g.pick(ints) if g.coin(2, 3) else str(g.draw(st.integers(10, 99))) for _ in range(k))), v)
         env[v] = "list"
+        g.list_len[v] = k
+        if g.coin():
+            w = g.fresh("v")
+            g.labels.add("element_read")
+            g.emit(indent, "%s = %s[%d]" % (w, v, g.draw(st.integers(0, k - 1))), w, multi=True)
+            env[w] = "int"
         return
     if r == 21 and g.lists and lists:
         v = g.fresh("v")
         g.labels.add("element_read")
-        g.emit(indent, "%s = %s[%d]" % (v, g.pick(lists), g.draw(st.integers(0, 1))), v, multi=True)
+        l = g.pick(lists)
+        g.emit(indent, "%s = %s[%d]" % (v, l, g.draw(st.integers(0, g.list_len.get(l, 2) - 1))), v, multi=True)
         env[v] = "int"
         return
     if r == 22 and g.loops and depth < 2:
